@@ -308,3 +308,29 @@ func (r *Reliable) VerifDebug() string {
 	r.recvWindow.m.Unlock()
 	return out
 }
+
+// VerifInitSettled reports whether the tube under (reliable, id), if any, has finished its
+// initiation goroutine (true also when there is no such tube).
+func (m *Muxer) VerifInitSettled(reliable bool, id byte) bool {
+	t, ok := m.getTube(reliable, id)
+	if !ok {
+		return true
+	}
+	switch x := t.(type) {
+	case *Reliable:
+		select {
+		case <-x.initDone:
+			return true
+		default:
+			return false
+		}
+	case *Unreliable:
+		select {
+		case <-x.initiateDone:
+			return true
+		default:
+			return false
+		}
+	}
+	return true
+}
